@@ -20,6 +20,10 @@ type C14Case struct {
 	Evs     []model.Ev       `json:"evs"`
 	Abandon int              `json:"abandon"` // number of events delivered before the document is abandoned (-1: all)
 	Kind    string           `json:"kind,omitempty"`
+	// Probe2 is a matching stream (some members omitted, unknown members added)
+	// for a second value of the SAME type, delivered after Reset+SetTarget:
+	// whatever an unfolder keeps per type must not leak into the next document.
+	Probe2 []model.Ev `json:"probe2,omitempty"`
 }
 
 const sentinelWord = 0xA5A5F00DCAFE5A5A
@@ -115,7 +119,7 @@ func checkC14(ci any, info *CaseInfo) string {
 	}
 	var failedAt = -1
 	o = guardAlloc(func() error {
-		n, err := model.Apply(evs, u)
+		n, err := model.ApplyScribble(evs, u)
 		if err != nil {
 			failedAt = n
 		}
@@ -155,6 +159,37 @@ func checkC14(ci any, info *CaseInfo) string {
 			default:
 				info.Class("lossy_conversion_not_compared")
 			}
+		}
+	}
+
+	// Reset + SetTarget(new variable of the same type) + a matching document
+	if len(c.Probe2) > 0 {
+		info.Class("same_type_probe")
+		w2, t2 := guardedTarget(typ)
+		ro := guard(func() error {
+			u.Reset()
+			return u.SetTarget(t2.Interface())
+		})
+		if ro.Panicked() || ro.Err != nil {
+			return fmt.Sprintf("Reset+SetTarget(same type) after the document fails: %v\n  %s", ro, desc)
+		}
+		po := guard(func() error { _, err := model.ApplyScribble(c.Probe2, u); return err })
+		fresh := reflect.New(typ)
+		fu, ferr := newUnfolder(fresh.Interface())
+		if ferr != nil {
+			return "harness: " + ferr.Error()
+		}
+		fo := guard(func() error { _, err := model.ApplyScribble(c.Probe2, fu); return err })
+		if po.Panicked() || po.Class() != fo.Class() {
+			return fmt.Sprintf("after Reset+SetTarget a second document for the same type ends with %v, on a new unfolder with %v\n  second document %v\n  %s", po, fo, truncEvs(c.Probe2), desc)
+		}
+		if po.Err == nil {
+			if d := gomodel.GoEqual(fresh.Elem(), t2.Elem(), true); d != "" {
+				return fmt.Sprintf("after Reset+SetTarget a second document for the same type yields another value than on a new unfolder: %s\n  reused: %+v\n  new:    %+v\n  second document %v\n  %s", d, safeInterface(t2.Elem()), safeInterface(fresh.Elem()), truncEvs(c.Probe2), desc)
+			}
+		}
+		if !sentinelsIntact(w2) {
+			return "the second document wrote outside its target"
 		}
 	}
 
@@ -306,13 +341,22 @@ func drawC14(t *rapid.T) any {
 	if rapid.IntRange(0, 2).Draw(t, "abandon") == 2 && len(c.Evs) > 0 {
 		c.Abandon = rapid.IntRange(0, len(c.Evs)-1).Draw(t, "abandonat")
 	}
+	if typ, err := gomodel.Build(&c.Type); err == nil && rapid.IntRange(0, 3).Draw(t, "probe2") > 0 {
+		gv := gomodel.DrawValue(t, typ, gomodel.ValCfg{Budget: 20})
+		if rv, err := gomodel.Materialize(typ, &gv); err == nil {
+			if v, err := gomodel.FoldModel(rv); err == nil {
+				r := &renderer{t: t, route: "direct", perturb: true}
+				r.render(v, &c.Probe2)
+			}
+		}
+	}
 	return c
 }
 
 func init() {
 	register(&Property{
 		ID:            "C14",
-		Rule:          "(stream, target type) pairs: (i) drawn independently (mostly mismatching), (ii) a matching perturbed stream (C13 renderer) with one subtree replaced by another random value at a drawn position and depth (scalar<->array<->object, key where none is expected, wrong element kinds, typed containers), (iii) matching streams whose container start announces 2^16..2^63-1 elements that are not delivered; optionally abandoned after a drawn event index; then Reset + SetTarget + a fixed probe document. Oracle: no panic; TotalAlloc <= 256KiB + 512 B/event + 8 B/string byte; the target sits between sentinel words that must stay intact; a success must equal the reference assignment model on the same stream (compared when every number fits); after Reset+SetTarget the probe result, outcome and stack depths equal a new unfolder's. non-trivial = an error at depth >= 1 or abandonment inside a nested container; distinct by case hash. The thorough tier repeats the search with the -race build (checkptr)",
+		Rule:          "(stream, target type) pairs: (i) drawn independently (mostly mismatching), (ii) a matching perturbed stream (C13 renderer) with one subtree replaced by another random value at a drawn position and depth (scalar<->array<->object, key where none is expected, wrong element kinds, typed containers), (iii) matching streams whose container start announces 2^16..2^63-1 elements that are not delivered; optionally abandoned after a drawn event index; then Reset + SetTarget(new variable of the same type) + a matching perturbed document of a second value (members omitted), then Reset + SetTarget + a fixed probe document of a fixed type. Oracle: no panic; TotalAlloc <= 256KiB + 512 B/event + 8 B/string byte; the target sits between sentinel words that must stay intact; a success must equal the reference assignment model on the same stream (compared when every number fits); after each Reset+SetTarget the result, outcome and stack depths equal a new unfolder's on the same document. non-trivial = an error at depth >= 1 or abandonment inside a nested container; distinct by case hash. The thorough tier repeats the search with the -race build (checkptr)",
 		New:           func() any { return &C14Case{} },
 		Draw:          drawC14,
 		Check:         checkC14,
